@@ -9,7 +9,7 @@
    select mask l keeps the elements of l at the positions where mask is true, so
    select (map (Z.eqb l) labels) ids  are the ids whose label is l, in their original order.
    cellx a t x y = value for (id x on axis a, id y on the other axis); md_view identifies None and {}. *)
-From Coq Require Import List ZArith Bool Sorted.
+From Coq Require Import List ZArith Bool Sorted Permutation.
 From BiomV Require Import Base.Tree Base.ListUtil Base.Matrix Model.Table Model.Orient Model.Filter Model.Partition
   Proofs.OrientProofs Proofs.PartitionProofs.
 Import ListNotations.
@@ -66,6 +66,14 @@ Theorem partition_ignored : forall t a lab parts (i : nat) (x : Z) (p : table) (
 Proof. exact PartitionProofs.partition_ignored. Qed.
 Print Assumptions partition_ignored.
 
+(* exactly once: the ids of all parts together are a permutation of the ids whose label is not ignored *)
+Theorem partition_cover_once : forall t a lab ign parts,
+  wf t -> partition_t t a lab ign false = ROk parts ->
+  Permutation (concat (map (fun lp => ids a (snd lp)) parts))
+              (select (map (fun l => negb (ign && Z.eqb l NONE_LABEL)) (labels_of lab (ids a t))) (ids a t)).
+Proof. exact PartitionProofs.partition_cover_once. Qed.
+Print Assumptions partition_cover_once.
+
 (* remove_empty=True is remove_empty (axis 'whole', property C08) applied to each part *)
 Theorem partition_remove_empty : forall t a lab ign,
   partition_t t a lab ign true =
@@ -75,6 +83,23 @@ Theorem partition_remove_empty : forall t a lab ign,
   end.
 Proof. exact PartitionProofs.partition_remove_empty. Qed.
 Print Assumptions partition_remove_empty.
+
+(* what remove_empty does to a part: values of the remaining id pairs are unchanged; a sample stays iff
+   its vector in the part has a non-zero entry, an observation iff it has one among the remaining samples *)
+Theorem remove_empty_whole_cell : forall (p : table) (o s : Z),
+  wf p -> In o (oids (remove_empty_whole p)) -> In s (sids (remove_empty_whole p)) ->
+  cell (remove_empty_whole p) o s = cell p o s.
+Proof. exact PartitionProofs.remove_empty_whole_cell. Qed.
+Print Assumptions remove_empty_whole_cell.
+
+Theorem remove_empty_whole_ids : forall p : table,
+  (forall s, In s (sids (remove_empty_whole p)) <->
+     exists j, j < length (sids p) /\ nth j (sids p) 0%Z = s /\ all_zero (vec Samp p j) = false) /\
+  (forall o, In o (oids (remove_empty_whole p)) <->
+     exists i, i < length (oids p) /\ nth i (oids p) 0%Z = o /\
+               all_zero (vec Obs (remove_empty_axis Samp p) i) = false).
+Proof. exact PartitionProofs.remove_empty_whole_ids. Qed.
+Print Assumptions remove_empty_whole_ids.
 
 (* the only refusals: a dict in neither accepted form (ValueError) and the empty dict (IndexError) *)
 Theorem partition_refuses : forall t a lab ign re (c : Z),
@@ -271,6 +296,12 @@ Proof.
   split; [apply wfb_wf; vm_compute; reflexivity|]. split; [vm_compute; reflexivity|].
   eexists. split; [vm_compute; reflexivity|reflexivity].
 Qed.
+
+(* the repaired F6: a vector with non-zero entries whose sum is 0 survives remove_empty *)
+Example partition_remove_empty_example :
+  partition_t (mkT [10; 20; 30] [110; 120; 130] [[1; 0; 2]; [0; 0; 0]; [-1; 0; 1]] None None 0) Obs (LFun [5; 5; 5]) false true =
+    ROk [(5, mkT [10; 30] [110; 130] [[1; 2]; [-1; 1]] None None 0)].
+Proof. vm_compute. reflexivity. Qed.
 
 Example collapse_example :
   collapse_t exT Samp (OneToOne (LFun [5; 6; 5; 6]) 1) true true 0 =
